@@ -426,14 +426,15 @@ def campaign_three_ways(ck: Check, rn: Runner) -> dict:
     t0 = time.time()
     baseline = rn.cli({})
     camp.evaluations += 1
-    if baseline["rc"] != 0:
-        ck.infra_errors.append("baseline CLI run failed: " + baseline["stderr"])
-        return {}
+    if baseline["rc"] != 0:   # every CLI run fails: the three-ways comparison below reports it
+        camp.hit("baseline-cli-run-failed")
+        baseline = None
     opts_list = e2e_options(ck, rn)
     results = three_ways_many(ck, camp, rn, opts_list, baseline)
     camp.wall_s = time.time() - t0
     cache = {json.dumps(o, sort_keys=True): r for o, r in zip(opts_list, results)}
-    cache["{}"] = {"cli": baseline}
+    if baseline is not None:
+        cache["{}"] = {"cli": baseline}
     return cache
 
 
